@@ -100,6 +100,16 @@ def run(ctx):
     callers = sorted({c[0] for c in P.callers(SERVER + "::new")})
     ctx.check("shared-state", "Server-built-on-its-worker-thread", callers == ["roughenough_server::polling_loop"] and any(q == "roughenough_server::polling_loop" for q, bb in P.callees(entry)),
               "Server::new runs inside the worker thread (polling_loop)", "Server::new is called from %s" % callers)
+    # ------------------------------------------------------------------ (4) per-worker behaviour: the single-worker structure rules of C09 must hold
+    import importlib
+    from framework import Ctx
+    c9 = importlib.import_module("rules.C09")
+    sub = Ctx("C09", P, ctx.repo, "quick", ctx.feature)
+    c9.run(sub)
+    bad = [i for i in sub.instances if not i["ok"]]
+    ctx.check("per-worker-behaviour", "one-response-per-request-structure(C09)", not bad, "every worker answers each accepted request exactly once (C09 structure rules hold: %d instances)" % len(sub.instances),
+              "a worker does not answer every accepted request exactly once: " + (bad[0]["detail"] if bad else ""), bad[0].get("loc") if bad else None)
+
     # thorough: compile-fail witness
     if ctx.tier == "thorough" and ctx.feature == "default":
         import witness
